@@ -12,7 +12,7 @@ import ast
 from ..absint import Interp, CTX, Cst, D, Tup, num, Deg
 from .. import hd, astq
 from ..hd import expect, events_to_obligations
-from ..program import rel
+from ..program import FuncInfo,  rel
 
 FUNCS = ["MAC", "MPC", "MPD", "MCF", "MSF"]
 RESTRICTED = {"numpy.arccos": "[-1,1]", "numpy.arcsin": "[-1,1]", "numpy.sqrt": ">=0", "numpy.log": ">0", "numpy.log10": ">0", "math.sqrt": ">=0", "math.acos": "[-1,1]"}
@@ -27,6 +27,9 @@ def check(prog, run):
     run.rule("R-domain", "every arccos/arcsin argument is bounded by clip/minimum/maximum; every sqrt argument is a sum of squares or a magnitude; "
              "a quotient by a per-component magnitude is guarded against 0/0", 3)
     run.rule("R-mac-shape", "MAC: product conj(first).T @ second; entry [i, j] normalised with column i of the first and column j of the second set", 2)
+    run.rule("R-options", "no option of a library call inside the indicator functions is dropped by a truth test (`axis=0`, `keepdims=False` are settings)", 1)
+    qs_ = sorted(q for q in prog.reachable([prog.func("functions.gen." + n_).qual for n_ in FUNCS]) if q in prog.functions)
+    astq.dropped_options_rule(prog, run, "R-options", qs_)
     I = Interp(prog)
     seen = set()
     one = {
@@ -81,7 +84,7 @@ def _contains_componentwise_abs(prog, fi, e, params):
             return False
         if isinstance(n, ast.Call):
             nm = astq.callee_name(prog, fi, n)
-            if nm in REDUCERS:
+            if nm in REDUCERS or _reducing_helper(prog, fi, n):
                 return False
             if nm in astq.ABS and n.args:
                 names = {x.id for x in ast.walk(n.args[0]) if isinstance(x, ast.Name)}
@@ -92,6 +95,15 @@ def _contains_componentwise_abs(prog, fi, e, params):
                 return True
         return False
     return rec(e, False)
+
+
+def _reducing_helper(prog, fi, call):
+    """a function of the package whose result is a reduction (np.sum(..) ..) of what it is given"""
+    r = prog.resolve_call(fi, call)
+    if not isinstance(r, FuncInfo):
+        return False
+    rets = [x.value for x in ast.walk(r.node) if isinstance(x, ast.Return) and x.value is not None]
+    return bool(rets) and all(isinstance(v, ast.Call) and astq.callee_name(prog, r, astq.expr_at(r, v, v) if False else v) in REDUCERS for v in rets)
 
 
 def _sum_of_squares(prog, fi, e):
